@@ -283,7 +283,9 @@ func c02r3(r *R) {
 		// return value
 		wdesc := p.Events[wi].Desc
 		werr := p.hasCond(func(c string) bool { return c == "("+wdesc+" != nil)" })
-		ferr := p.hasCond(func(c string) bool { return strings.HasPrefix(c, "((*bufio.") && strings.Contains(c, ").Flush(") && strings.HasSuffix(c, " != nil)") })
+		ferr := p.hasCond(func(c string) bool {
+			return strings.HasPrefix(c, "((*bufio.") && strings.Contains(c, ").Flush(") && strings.HasSuffix(c, " != nil)")
+		})
 		want := "nil"
 		if werr || ferr || isClose {
 			want = "martian.errClose"
@@ -305,22 +307,22 @@ func c02r3(r *R) {
 func c02r4(r *R) {
 	type key struct{ fn, what string }
 	allowed := map[key]string{
-		{"(*martian.proxyConn).handle", "field:Request"}:                 "rebinding to the request that was read",
-		{"(martian.proxyHandler).handleRequest", "field:Request"}:        "rebinding to the request that was read",
-		{"(*martian.Proxy).connectHTTP", "field:Request"}:                "upstream CONNECT rejection relayed for the client's request",
-		{"(*martian.proxyConn).handle", "header:Set Connection"}:         "re-added for an upgrade reply",
-		{"(*martian.proxyConn).handle", "header:Set Upgrade"}:            "re-added for an upgrade reply",
-		{"(martian.proxyHandler).handleRequest", "header:Set Connection"}: "re-added for an upgrade reply",
-		{"(martian.proxyHandler).handleRequest", "header:Set Upgrade"}:    "re-added for an upgrade reply",
-		{"(*martian.proxyConn).handleUpgradeResponse", "field:Body"}:     "upgrade hand-over: the body became the tunnel",
-		{"(martian.proxyHandler).handleUpgradeResponse", "field:Body"}:   "upgrade hand-over: the body became the tunnel",
-		{"(*martian.Proxy).roundTrip", "field:Body"}:                     "unexpected body of a header-only reply dropped (R2)",
-		{"(*martian.proxyConn).writeResponse", "field:Close"}:            "connection management (R3)",
-		{"(*martian.proxyConn).writeResponse", "header:Add Connection"}:  "Connection: close (R3)",
-		{"(*martian.proxyConn).writeErrorResponse", "field:Request"}:     "relayed CONNECT rejection bound to the client's request",
-		{"(*martian.proxyConn).writeErrorResponse", "field:Proto"}:       "relayed CONNECT rejection answers in the client's protocol version",
-		{"(*martian.proxyConn).writeErrorResponse", "field:ProtoMajor"}:  "same",
-		{"(*martian.proxyConn).writeErrorResponse", "field:ProtoMinor"}:  "same",
+		{"(*martian.proxyConn).handle", "field:Request"}:                           "rebinding to the request that was read",
+		{"(martian.proxyHandler).handleRequest", "field:Request"}:                  "rebinding to the request that was read",
+		{"(*martian.Proxy).connectHTTP", "field:Request"}:                          "upstream CONNECT rejection relayed for the client's request",
+		{"(*martian.proxyConn).handle", "header:Set Connection"}:                   "re-added for an upgrade reply",
+		{"(*martian.proxyConn).handle", "header:Set Upgrade"}:                      "re-added for an upgrade reply",
+		{"(martian.proxyHandler).handleRequest", "header:Set Connection"}:          "re-added for an upgrade reply",
+		{"(martian.proxyHandler).handleRequest", "header:Set Upgrade"}:             "re-added for an upgrade reply",
+		{"(*martian.proxyConn).handleUpgradeResponse", "field:Body"}:               "upgrade hand-over: the body became the tunnel",
+		{"(martian.proxyHandler).handleUpgradeResponse", "field:Body"}:             "upgrade hand-over: the body became the tunnel",
+		{"(*martian.Proxy).roundTrip", "field:Body"}:                               "unexpected body of a header-only reply dropped (R2)",
+		{"(*martian.proxyConn).writeResponse", "field:Close"}:                      "connection management (R3)",
+		{"(*martian.proxyConn).writeResponse", "header:Add Connection"}:            "Connection: close (R3)",
+		{"(*martian.proxyConn).writeErrorResponse", "field:Request"}:               "relayed CONNECT rejection bound to the client's request",
+		{"(*martian.proxyConn).writeErrorResponse", "field:Proto"}:                 "relayed CONNECT rejection answers in the client's protocol version",
+		{"(*martian.proxyConn).writeErrorResponse", "field:ProtoMajor"}:            "same",
+		{"(*martian.proxyConn).writeErrorResponse", "field:ProtoMinor"}:            "same",
 		{"(*martian.proxyConn).writeErrorResponse", "header:Proxy-Authenticate"}:   "the proxy's own challenge restored (C04.R6)",
 		{"(martian.proxyHandler).writeErrorResponse", "field:Request"}:             "as above, handler mode",
 		{"(martian.proxyHandler).writeErrorResponse", "field:Proto"}:               "as above",
